@@ -183,6 +183,18 @@ def run_leg(res, tier, seed, kinds):
             text = rnd.choice([',', ', ', ' ,', ' , ']).join(rnd.choice(EXC) for _i in range(rnd.randint(1, 4)))
             add(('py', 'js'), 'exceptcols %%s %s %s' % (enc_table(inm), enc_str(text)), ('flagonly',))
 
+    if 'tablevars' in kinds:
+        POS = ['a1', 'a2', 'a3', 'a[1]', 'a[2]', 'b1', 'a10', 'a1 ', ' a2,', 'xa1', 'a1x']
+        for names, text in gen_name_cases(rnd, 2500 if quick else 40000):
+            # positional-looking and ordinary names mixed; some headers made of identifiers only (direct mode)
+            if rnd.random() < 0.5:
+                names = rnd.sample(['a1', 'a2', 'a3', 'b1', 'x', 'id', 'name', 'a10', '_u', 'NR'], rnd.randint(1, 4))
+            text = text + rnd.choice([' ', ', ']) + rnd.choice([' ', ', ']).join(rnd.choice(POS + names) for _i in range(rnd.randint(0, 4)))
+            norm = rnd.choice('01')
+            width = rnd.choice(['~', str(len(names)), str(len(names)), str(len(names) + 1)])
+            hdr = 'N' if rnd.random() < 0.15 else 'S' + enc_list(names)
+            add(('py', 'js'), 'tablevars %%s %s %s %s %s %s' % (enc_str('a'), enc_str(text), hdr, norm, width), ('flagonly',))
+
     # group by implementation; lines with a %s placeholder for the js flag get it filled per implementation
     def vars_canon(line, out):
         if line.startswith('basicvars') or line.startswith('arrayvars'):
@@ -193,7 +205,7 @@ def run_leg(res, tier, seed, kinds):
 
     def attr_canon(line, out):
         # parse_attribute_variables of rbql_engine.py walks a `set` of names: the insertion order of its map is arbitrary
-        if line.startswith('attrvars') and out.startswith('ok ') and out != 'ok ~':
+        if (line.startswith('attrvars') or line.startswith('tablevars')) and out.startswith('ok ') and out != 'ok ~':
             return 'ok ' + ' '.join(sorted(out[3:].split(' ')))
         return out
 
@@ -233,7 +245,7 @@ def run_leg(res, tier, seed, kinds):
             if nbad <= 3:
                 args = l.split(' ')
                 # shrink the text argument (the last but one for colinfos/selinfos, the last otherwise)
-                pos = len(args) - 2 if op in ('colinfos', 'selinfos', 'dictvars', 'attrvars', 'directvars') else len(args) - 1
+                pos = len(args) - 2 if op in ('colinfos', 'selinfos', 'dictvars', 'attrvars', 'directvars') else (3 if op == 'tablevars' else len(args) - 1)
                 if op == 'joinresolve':
                     res.violations.append({'property': prop, 'impl': impl, 'why': 'resolve_join_variables differs from its model (Model/JoinResolve.lean)', 'op': op, 'line': l, 'model_says': m, 'impl_says': o, 'case_key': '%s|translate|%s|%s|%s' % (prop, impl, op, l)})
                     continue
@@ -258,7 +270,7 @@ def _cm(line, out):
             out = ','.join(str(x) for x in sorted(set(int(p) for p in out.split(','))))
     if line.startswith('selinfos') and (out == 'SYNTAX' or out.startswith('err open') or out.startswith('err close') or out == 'err parse'):
         return 'REJECT'
-    if line.startswith('attrvars') and out.startswith('ok ') and out != 'ok ~':
+    if (line.startswith('attrvars') or line.startswith('tablevars')) and out.startswith('ok ') and out != 'ok ~':
         return 'ok ' + ' '.join(sorted(out[3:].split(' ')))
     return out
 
